@@ -142,6 +142,23 @@ func emitC17(out *Out, r *Rng, attr string, tags []string) {
 			out.Emit(Case{Op: "ser.slot", In: J{"attr": attr, "field": field}, Impl: impl, Prop: propOf(why), Tags: t2, NT: true})
 		}
 	}
+	// the same with an explicit root position: a serialized type has no root to place, so the request is refused - or, if a
+	// claim is built after all, the designated fields must still sit where the lookup says
+	for _, pos := range []string{"value", "index"} {
+		cl2, cerr2 := runToCoreClaim(vc, &verifiable.CoreClaimOptions{RevNonce: 1, MerklizedRootPosition: pos}, c)
+		var why []string
+		if cerr2 == nil && cerr == nil {
+			s2 := cl2.RawSlotsAsInts()
+			for _, field := range c17Pool {
+				idx, gerr := jsonproc.Parser{}.GetFieldSlotIndex(field, c.TypeName, schema)
+				fv, known := fields[field].(string)
+				if gerr == nil && known && idx >= 0 && idx < 8 && s2[idx].String() != fv {
+					why = append(why, fmt.Sprintf("with root position %q: slot %d reported for %q but the claim's raw slot %d holds %v (field encoding %v)", pos, idx, field, idx, s2[idx], fv))
+				}
+			}
+		}
+		out.Emit(Case{Op: "none", In: J{"attr": attr, "rootPosition": pos}, Impl: J{"built": cerr2 == nil}, Prop: propOf(why), Tags: append(append([]string{}, tags...), "root-position-option"), NT: true})
+	}
 	// unknown type: an error
 	if idx, err := (jsonproc.Parser{}).GetFieldSlotIndex("fld0", "NoSuchType", schema); err == nil {
 		out.Emit(Case{Op: "none", In: J{"attr": attr}, Impl: okJ(idx), Prop: &PropRes{OK: false, Why: "slot index reported for an unknown type"}, Tags: tags, NT: true})
